@@ -1,6 +1,6 @@
 """C16 - assembly is a pure, deterministic function of its inputs (DESIGN.md section 3, C16).
 
-History explorer: an alphabet of 19 assemble() calls (programs that define constants / labels / register aliases other
+History explorer: an alphabet of 21 assemble() calls (programs that define constants / labels / register aliases other
 programs use WITHOUT defining, programs failing in five different passes, compressed / uncompressed, a path program
 with an include whose files are rewritten between calls, dictionaries supplied or omitted); ALL histories of length d
 are executed, each in one fresh interpreter (one child process per history), and every step's complete result (bytes
@@ -19,7 +19,7 @@ from mc import kernel, trees
 
 PROP = 'C16'
 CHILD = os.path.join(os.path.dirname(os.path.dirname(os.path.abspath(__file__))), 'c16_child.py')
-OPS = ['def', 'use_const', 'use_label', 'use_alias', 'def_nd', 'use_const_nd', 'use_label_nd', 'use_alias_nd', 'fail_parse', 'fail_const', 'fail_enc', 'fail_data', 'ok_c', 'ok_u', 'many', 'board1', 'board2', 'path_A', 'path_B']
+OPS = ['def', 'use_const', 'use_label', 'use_alias', 'def_nd', 'use_const_nd', 'use_label_nd', 'use_alias_nd', 'fail_parse', 'fail_const', 'fail_enc', 'fail_data', 'ok_c', 'ok_u', 'many', 'board1', 'board2', 'incX', 'incY', 'path_A', 'path_B']
 
 
 def child(hist, hashseed='0', tag='h'):
@@ -143,7 +143,12 @@ def run(tier, seed, t0):
     for op in ('use_const', 'use_label', 'use_alias', 'use_const_nd', 'use_label_nd', 'use_alias_nd'):
         if fresh[op]['status'] == 'ok':
             raise RuntimeError('alphabet broken: %s succeeds alone' % op)
-    hists = [list(h) for h in itertools.product(OPS, repeat=depth)]
+    if tier == 'quick':
+        # all histories of length 2, and all of length 3 that end in a call able to observe leaked constants / labels / aliases / search paths / file contents
+        obs = ['use_const', 'use_label', 'use_alias', 'use_const_nd', 'use_label_nd', 'use_alias_nd', 'board2', 'incY', 'path_B']
+        hists = [list(h) for h in itertools.product(OPS, repeat=2)] + [list(h) + [o] for h in itertools.product(OPS, repeat=2) for o in obs]
+    else:
+        hists = [list(h) for h in itertools.product(OPS, repeat=depth)]
     tasks = [dict(hists=ch, fresh=fresh) for ch in kernel.chunks(hists, 40)]
     m = kernel.explore(history_task, tasks)
     seeds = ['0', '1', '2', '3', '42', str(1000 + seed % 100000), None]
@@ -151,12 +156,13 @@ def run(tier, seed, t0):
     m = kernel.explore(extra_task, [[e] for e in extra], merged=m)
     n = m.n
     nstates = len(m.sets['states'])
-    cov = dict(states=n['histories'] * depth + n['seed_runs'], transitions=n['calls'], traces_validated_against_impl=n['histories'] + n['seed_runs'],
+    cov = dict(states=n['calls'], transitions=n['calls'], traces_validated_against_impl=n['histories'] + n['seed_runs'],
                evaluations=n['calls'], distinct_nontrivial=n['histories'],
-               rule='one history = one fresh interpreter executing %d assemble() calls; states counts (history, step) pairs compared with the fresh-interpreter result of the same call; '
-                    'every history of length %d over the %d-call alphabet is executed (all shorter histories are its prefixes)' % (depth, depth, len(OPS)),
+               rule='one history = one fresh interpreter executing up to %d assemble() calls; states counts (history, step) pairs compared with the fresh-interpreter result of the same call; '
+                    '%s' % (depth, 'every history of length %d over the %d-call alphabet is executed (all shorter histories are its prefixes)' % (depth, len(OPS)) if tier == 'thorough' else
+                            'all histories of length 2 over the %d-call alphabet and all of length 3 ending in one of 9 observer calls' % len(OPS)),
                exhaustive=True, depth=depth, alphabet=OPS, distinct_module_states=nstates, hash_seeds=[s if s is not None else 'unset' for s in seeds],
-               bound='all %d^%d histories; 7 hash seeds x (%d API calls + command line with -l / --hex-offset, with and without -v)' % (len(OPS), depth, len(OPS)))
+               bound=('all %d^%d histories' % (len(OPS), depth) if tier == 'thorough' else 'all %d^2 histories of length 2 + %d^2 x 9 of length 3' % (len(OPS), len(OPS))) + '; 7 hash seeds x (%d API calls + command line with -l / --hex-offset and four -i directories, with and without -v)' % len(OPS))
     del m.sets['states']
     return kernel.finish(PROP, tier, seed, t0, m, cov, [
         'the fresh-interpreter result of the same call is the reference (differential, no hand-written expectation)',
